@@ -671,6 +671,10 @@ attrsLoop:
 
 						u, err := url.Parse(htmlAttr.Val)
 						if err != nil {
+							// Only reachable with RequireParseableURLs(false):
+							// what net/url refuses (a leading space, a stray
+							// "%") a browser may still follow to another host
+							externalLink = true
 							continue
 						}
 						if u.Host != "" {
